@@ -56,12 +56,26 @@ impl PseudoArgData {
             }
         }
 
+        // a pseudo-arg is stored in a field narrower than an int; the value must be representable in it
+        // (as either a signed or an unsigned number of that width)
+        fn narrow(x: Sp<i32>, bits: u32) -> Result<i64, Diagnostic> {
+            let value = x.value as i64;
+            if -(1i64 << (bits - 1)) <= value && value < (1i64 << bits) {
+                Ok(value)
+            } else {
+                Err(error!(
+                    message("pseudo-arg value out of range"),
+                    primary(x, "{} does not fit in {bits} bits", x.value),
+                ))
+            }
+        }
+
         Ok(PseudoArgData {
             blob: blob.map(|str| parse_args_blob(str).map(|s| sp!(str.span => s))).transpose()?,
-            param_mask: param_mask.map(|x| sp!(x.span => x.value as _)),
-            pop: pop.map(|x| sp!(x.span => x.value as _)),
-            extra_arg: extra_arg.map(|x| sp!(x.span => x.value as _)),
-            arg_count: arg_count.map(|x| sp!(x.span => x.value as _)),
+            param_mask: param_mask.map(|x| narrow(x, raw::ParamMask::BITS).map(|v| sp!(x.span => v as _))).transpose()?,
+            pop: pop.map(|x| narrow(x, raw::StackPop::BITS).map(|v| sp!(x.span => v as _))).transpose()?,
+            extra_arg: extra_arg.map(|x| narrow(x, raw::ExtraArg::BITS).map(|v| sp!(x.span => v as _))).transpose()?,
+            arg_count: arg_count.map(|x| narrow(x, raw::ArgCount::BITS).map(|v| sp!(x.span => v as _))).transpose()?,
         })
     }
 }
